@@ -238,10 +238,14 @@ func TestVerifC13MergeChart(t *testing.T) {
 		var xs []float64
 		bigLine, dupX := false, false
 		total := 0
+		var prevDays []string
 		for d := 0; d < ndays; d++ {
 			day := day0.AddDate(0, 0, d).Format("2006-01-02")
 			if d == missing {
 				continue
+			}
+			if d > 0 {
+				prevDays = append(prevDays, day0.AddDate(0, 0, d-1).Format("2006-01-02"))
 			}
 			n := rapid.SampledFrom([]int{0, 1, 1, 2, 3, 5, 8, 40}).Draw(t, "nreports")
 			if longRange && d%37 != 0 {
@@ -250,6 +254,12 @@ func TestVerifC13MergeChart(t *testing.T) {
 			seen := map[float64]bool{}
 			for i := 0; i < n; i++ {
 				r := c13Report(t, ucfg, day, xs)
+				if len(prevDays) > 0 && rapid.IntRange(0, 5).Draw(t, "weekOfAnotherDay") == 0 {
+					// stored for this day, but naming another day of the range as its week (the worker takes the day
+					// from where the report is stored; what the report says about itself is not checked there)
+					r.Week = prevDays[rapid.IntRange(0, len(prevDays)-1).Draw(t, "otherDay")]
+					vstats.Label("weekFieldOfAnotherDay")
+				}
 				if seen[r.X] {
 					continue // same object name: the later upload would overwrite the earlier one
 				}
